@@ -45,6 +45,7 @@ type gNode struct {
 	ty                    int
 	cust, q, r            string
 	ord, early, after, flt int
+	fetch                 string            // Init fetches this component by name (re-entrant callback; such scenarios are oracle-only)
 	cfg                   int               // 0 none, 1 literal, 2 absent key required, 3 absent key optional, 4 absent key with default
 	slots                 map[string]string // slot → 'w'|'f' + tag text
 }
@@ -119,6 +120,7 @@ func runGraph(sc *gScen) *gRun {
 		b := n.base()
 		b.Idx, b.Cust, b.Q, b.R, b.Ord, b.EarlyVer, b.AfterVer, b.Flt = i, gn.cust, gn.q, gn.r, gn.ord, gn.early, gn.after, gn.flt
 		b.spec = gn.slots
+		b.Fetch = gn.fetch
 		b.env = env
 		b.V = "SENTINEL"
 		if gn.cfg > 0 {
@@ -510,8 +512,12 @@ func (r *gRun) scenarioLine() string {
 		if isUnwired(r.nodesObj[i]) {
 			wired = 0
 		}
-		recs = append(recs, fmt.Sprintf("N %d %d %s %s %s %d %d %d %d %d %d", i, n.ty, hx.Hex(n.cust), hx.Hex(n.q), hx.Hex(n.r),
-			n.ord, n.early, n.after, n.flt, n.cfg, wired))
+		rec := fmt.Sprintf("N %d %d %s %s %s %d %d %d %d %d %d", i, n.ty, hx.Hex(n.cust), hx.Hex(n.q), hx.Hex(n.r),
+			n.ord, n.early, n.after, n.flt, n.cfg, wired)
+		if n.fetch != "" {
+			rec += " " + hx.Hex(n.fetch)
+		}
+		recs = append(recs, rec)
 	}
 	emit := func(row int, slots []string) {
 		for _, sn := range slots {
@@ -624,7 +630,7 @@ func (r *gRun) oracles() []string {
 			}
 		}
 	}
-	if r.status != "ok" && r.plainlyResolvable() {
+	if r.status != "ok" && !r.sc.reentrant() && r.plainlyResolvable() {
 		add("c02-resolvable-fails", "start-up ended with %s although every point names an existing, different component, nothing is substituted and no fault is injected: %.160s", r.status, strings.ReplaceAll(r.errText, "\n", " "))
 	}
 	unwired := map[int]bool{}
@@ -649,7 +655,7 @@ func (r *gRun) oracles() []string {
 		if k == 'e' {
 			continue
 		}
-		if prev, ok := last[id]; ok && rank[k] <= prev {
+		if prev, ok := last[id]; ok && rank[k] <= prev && !r.sc.reentrant() {
 			add("c05-order", "event %s out of order or repeated (events %v)", e, r.events)
 		}
 		last[id] = rank[k]
@@ -859,6 +865,9 @@ func parseGraphScenario(line string) (*gScen, error) {
 			n.after, _ = strconv.Atoi(f[8])
 			n.flt, _ = strconv.Atoi(f[9])
 			n.cfg, _ = strconv.Atoi(f[10])
+			if len(f) > 12 {
+				n.fetch, _ = hx.UnHex(f[12])
+			}
 			sc.nodes = append(sc.nodes, n)
 		case "F":
 			if len(f) < 7 {
@@ -875,6 +884,7 @@ func parseGraphScenario(line string) (*gScen, error) {
 }
 
 func graphReplay(scn string, w *hx.Writer) {
+	scn = strings.TrimPrefix(scn, "#reentrant ")
 	sc, err := parseGraphScenario(scn)
 	if err != nil {
 		return
@@ -987,8 +997,21 @@ func emitGraph(sc *gScen, tags []string, w *hx.Writer) *gRun {
 	if os.Getenv("HARNESS_DEBUG") != "" && r.errText != "" {
 		fmt.Fprintf(os.Stderr, "DEBUG %v %s: %.300s\n", tags, r.status, strings.ReplaceAll(r.errText, "\n", " "))
 	}
-	w.Put(hx.Case{Scn: r.scenarioLine(), Obs: r.observation(), Oracle: joinFails(r.oracles()), Tags: append(tags, r.labels()...)})
+	scn := r.scenarioLine()
+	if sc.reentrant() {
+		scn = "#reentrant " + scn // callbacks that re-enter the factory are outside the machine model: oracle-only
+	}
+	w.Put(hx.Case{Scn: scn, Obs: r.observation(), Oracle: joinFails(r.oracles()), Tags: append(tags, r.labels()...)})
 	return r
+}
+
+func (sc *gScen) reentrant() bool {
+	for _, n := range sc.nodes {
+		if n.fetch != "" {
+			return true
+		}
+	}
+	return false
 }
 
 func (r *gRun) labels() []string {
